@@ -29,6 +29,8 @@ Every rule then sees the same tree for
 
     set(x for ..) / list(x for ..) / dict((k, v) for ..)  ->  {x for ..} / [x for ..] / {k: v for ..}
 
+    x: T = e                   ->  x = e                 (locals and module variables; class-level field declarations stay)
+
 Positions of the original nodes are kept, so reports still point at the source line.  `tools/equiv_probe.py`
 applies the inverse rewrites to every module and checks that every rule stays silent.
 """
@@ -223,6 +225,28 @@ class Canon(ast.NodeTransformer):
 
     visit_FunctionDef = _function
     visit_AsyncFunctionDef = _function
+
+    def visit_ClassDef(self, node: ast.ClassDef):
+        # annotated assignments at class level are field declarations (dataclasses): left as they are
+        self.in_class = getattr(self, "in_class", 0) + 1
+        body = []
+        for st in node.body:
+            if isinstance(st, ast.AnnAssign):
+                body.append(st)
+            else:
+                self.in_class -= 1
+                body.append(self.visit(st))
+                self.in_class += 1
+        node.body = body
+        self.in_class -= 1
+        return node
+
+    def visit_AnnAssign(self, node: ast.AnnAssign):
+        node = self.generic_visit(node)
+        if node.value is not None and isinstance(node.target, ast.Name):
+            # `x: T = e` is `x = e` (the annotation of a local / module variable has no effect at run time)
+            return self.visit_Assign(ast.copy_location(ast.Assign(targets=[node.target], value=node.value), node))
+        return node
 
     def visit_Assign(self, node: ast.Assign):
         node = self.generic_visit(node)
